@@ -585,7 +585,7 @@ def oix_compare(exe, items):
     Returns (disagreements, stats)."""
     stats = {"oix_workspaces": 0, "oix_noncore": 0, "oix_ops": 0, "oix_outline_files": 0,
              "source_theorem_applicable": 0, "source_theorem_counts_agree": 0,
-             "files_theorem_hypotheses_hold": 0, "multi_file_workspaces": 0}
+             "files_theorem_hypotheses_hold": 0, "multi_file_workspaces": 0, "children_stream_equal": 0}
     lines, metas = [], []
     for ws, d, ca in items:
         if not isinstance(d, dict) or not d.get("oplog") and d.get("oplog") != []:
@@ -610,6 +610,8 @@ def oix_compare(exe, items):
             stats["files_theorem_hypotheses_hold"] += 1
         if len(ca["files"]) > 1:
             stats["multi_file_workspaces"] += 1
+        if r.get("children_stream") == "equal":
+            stats["children_stream_equal"] += 1
         # side condition of C18_outline_source_complete (single file, no include): registered vs source declaration counts
         dc = r.get("decl_counts")
         if dc is not None:
